@@ -406,3 +406,21 @@ Definition handler_flushes (meth : str) (r : resp) (reads : list str) : list boo
     (if hw_unknown_length_flushes_every_write then map nonempty reads else flush_flags chunk_flush_patterns reads)
   else if is_sse (r_hdr r) then flush_flags sse_flush_patterns reads
   else map (fun _ => false) reads.
+
+(* what the http.Handler variant's writeResponse does to the ResponseWriter, call by call:
+   copyHeader(rw.Header(), res.Header); addTrailerHeader; WriteHeader(code); Flush;
+   one Write per non-empty read (flushes: handler_flushes); after the body the trailers are
+   put into the header map — under their own names when exactly the announced ones arrived,
+   otherwise all of them under the "Trailer:" prefix *)
+Definition copy_header (dst src : hmap) : hmap :=
+  fold_left (fun d kv => fold_left (fun d' v => h_add (fst kv) v d') (snd kv) d) src dst.
+Definition handler_header (r : resp) (order : list str) : hmap :=
+  let h := copy_header [] (r_hdr r) in
+  match order with [] => h | _ => h_add (b "Trailer") (join hw_trailer_sep order) h end.
+(* res.Trailer after the body has been read: undeclared fields are merged in, or, when nothing was declared, become the map *)
+Definition handler_trailer_map (r : resp) : hmap :=
+  match r_trailer r with [] => r_late r | t => t ++ r_late r end.
+Definition handler_final (r : resp) (order : list str) : hmap :=
+  let tm := handler_trailer_map r in
+  if (length tm =? length (r_trailer r))%nat then copy_header (handler_header r order) tm
+  else copy_header (handler_header r order) (map (fun kv => (hw_trailer_prefix ++ fst kv, snd kv)) tm).
